@@ -102,6 +102,14 @@ var rowAtoms = map[byte][]string{
 	'S': {"s", "s2", "'xyz'", "'A b'", "''", "' 12 '"},
 	'D': {"d", "'2012-02-03 09:18:15'", "'2020-01-01'"},
 }
+
+// atoms over the temporary view dtt (datetime-typed cells) and the datetime variable
+var dtAtoms = map[byte][]string{
+	'N': {"id", "dn", "3"},
+	'F': {"1.5"},
+	'S': {"'%Y-%m-%d'", "'x'"},
+	'D': {"dv", "@dvar", "dv"},
+}
 var parAtoms = map[byte][]string{
 	'N': {"@p1", "7", "(-3)"},
 	'F': {"@p2", "2.5"},
@@ -418,6 +426,10 @@ var corpus = []string{
 	"SELECT id, s2, s FROM t ORDER BY s2, s, id",
 	"SELECT id, RANK() OVER (PARTITION BY s ORDER BY s2), LISTAGG(s2, ',') OVER (PARTITION BY s) FROM t ORDER BY id",
 	"SELECT DISTINCT s, s2 FROM t ORDER BY s DESC, s2",
+	"SELECT a.id, b.name FROM t a, t2 b WHERE a.grp = b.grp AND a.id < 40 ORDER BY a.id, b.name",
+	"SELECT a.id, b.name, a.s || b.name FROM t2 b, t a WHERE a.grp = b.grp AND a.id < 20 ORDER BY a.id, b.name",
+	"SELECT id, YEAR(dv), ADD_DAY(dv, 1), DATE_DIFF(dv, @dvar), DATETIME_FORMAT(dv, '%Y-%m-%d'), dv FROM dtt ORDER BY id",
+	"SELECT id, dv, TRUNC_MONTH(dv), UNIX_TIME(@dvar), dv < @dvar FROM dtt WHERE dv > '2005-01-01' ORDER BY dv, id",
 	"SELECT id, s || n, UPPER(s), n + f, -n, DATETIME(d) FROM t WHERE s IN ('alpha', 'Beta') OR n BETWEEN -5 AND 5 ORDER BY id",
 	"SELECT id, CASE WHEN n > 0 THEN 'p' ELSE s END, COALESCE(NULLIF(z, ''), s2), IF(f > 0, f, n) FROM t ORDER BY id",
 }
@@ -691,6 +703,22 @@ func runChild(seed int64, n int, dir string, withCorpus bool) {
 	if err != nil {
 		panic(err)
 	}
+	// values that are datetimes already (not strings that look like one): a temporary view with datetime
+	// cells and a datetime variable; conversions must copy them, not hand them back
+	if _, err := c.execChecked("DECLARE dtt VIEW (id, dv, dn) AS SELECT id, DATETIME(d), n FROM t WHERE id <= 120; DECLARE @dvar := DATETIME('2012-02-03 09:18:15');", "baseline"); err != nil {
+		panic(err)
+	}
+	dtBaseline, err := c.execChecked("SELECT * FROM dtt ORDER BY id; PRINT @dvar;", "baseline")
+	if err != nil {
+		panic(err)
+	}
+	rereadDt := func(where string) {
+		again, e := c.execChecked("SELECT * FROM dtt ORDER BY id; PRINT @dvar;", "reread_table")
+		if e != nil || again != dtBaseline {
+			o.Law("reread:datetime_cells", map[string]string{"second": canon(again, e), "where": where})
+		}
+		c.scanView("SELECT * FROM dtt", "re-read table cell")
+	}
 
 	if withCorpus {
 		for ci, q := range corpus {
@@ -719,12 +747,13 @@ func runChild(seed int64, n int, dir string, withCorpus bool) {
 			}
 			c.scanView(q, "result cell")
 			c.scanView("SELECT * FROM t", "re-read table cell")
+			rereadDt("after corpus statement " + q)
 			c.nt(fmt.Sprintf("corpus/%d/%v/%v", ci, e1 != nil, c.poison))
 		}
 	}
 	for it := 0; it < n; it++ {
 		c.seq++
-		kind := []string{"plain", "plain", "while", "udf", "prepared", "reread_table", "reread_cursor", "reread_variable"}[it%8]
+		kind := []string{"plain", "plain", "while", "udf", "prepared", "reread_table", "reread_cursor", "reread_variable", "dtcell", "fromlist"}[it%10]
 		o.Count("kind:" + kind)
 		switch kind {
 		case "plain":
@@ -785,6 +814,43 @@ func runChild(seed int64, n int, dir string, withCorpus bool) {
 				o.Law("repeat_eval:prepared", map[string]string{"prepare": q, "execute": ex, "first": canon(r1, e1), "second": canon(r2, e2), "first_error": errText(e1), "second_error": errText(e2)})
 			}
 			c.nt(fmt.Sprintf("prepared/%s/%v/%d", form, e1 != nil, len(r1)%97))
+		case "dtcell":
+			// functions applied to datetime-typed cells and variables, twice; then the cells are read again
+			k := 1 + c.g.Intn(3)
+			cols := make([]string, k)
+			for i := range cols {
+				cols[i] = c.call(dtAtoms, 1)
+			}
+			q := "SELECT id, " + strings.Join(cols, ", ") + ", dv FROM dtt ORDER BY id"
+			r1, e1 := c.execChecked(q+";", "plain")
+			r2, e2 := c.execChecked(q+";", "plain")
+			if canon(r1, e1) != canon(r2, e2) {
+				o.Law("repeat_eval:plain", map[string]string{"sql": q, "first": canon(r1, e1), "second": canon(r2, e2), "first_error": errText(e1), "second_error": errText(e2)})
+			}
+			c.scanView(q, "result cell")
+			rereadDt("after " + q)
+			c.nt(fmt.Sprintf("dtcell/%v/%d", e1 != nil, len(r1)%97))
+		case "fromlist":
+			// comma-separated FROM list, the same syntax tree evaluated again (WHILE, PREPARE/EXECUTE)
+			q := "SELECT a.id, b.name, " + c.g.Pick("a.n", "a.s || b.name", "a.f * 2", "UPPER(a.s)") + " FROM t a, t2 b" +
+				" WHERE a.grp = b.grp AND a.id < " + c.g.Pick("15", "40", "90") + " ORDER BY a.id, b.name"
+			v := fmt.Sprintf("@fl%d", c.seq)
+			sql := fmt.Sprintf("DECLARE %s := 0; WHILE %s < 2 DO %s; PRINT '#SEP#'; %s := %s + 1; END WHILE;", v, v, q, v, v)
+			out, e := c.execChecked(sql, "while")
+			parts := strings.Split(out, "'#SEP#'\n")
+			if e != nil || len(parts) != 3 || parts[0] != parts[1] {
+				o.Law("repeat_eval:while", map[string]string{"sql": sql, "output": canon(out, e), "error": errText(e)})
+			}
+			name := fmt.Sprintf("fl%d", c.seq)
+			if _, e := c.execChecked(fmt.Sprintf("PREPARE %s FROM '%s';", name, strings.ReplaceAll(q, "'", "''")), "prepared"); e == nil {
+				ex := fmt.Sprintf("EXECUTE %s;", name)
+				p1, pe1 := c.execChecked(ex, "prepared")
+				p2, pe2 := c.execChecked(ex, "prepared")
+				if canon(p1, pe1) != canon(p2, pe2) {
+					o.Law("repeat_eval:prepared", map[string]string{"prepare": q, "execute": ex, "first": canon(p1, pe1), "second": canon(p2, pe2), "first_error": errText(pe1), "second_error": errText(pe2)})
+				}
+			}
+			c.nt(fmt.Sprintf("fromlist/%v", e != nil))
 		case "reread_table":
 			_, _ = c.execChecked(c.noise(), kind)
 			again, e := c.execChecked("SELECT * FROM t ORDER BY id; SELECT * FROM t2;", kind)
